@@ -134,21 +134,132 @@ func ruleInfoState(c *Ctx) {
 		if ri < 0 {
 			continue
 		}
+		// the lookups made by the wrapper itself or by the helpers it calls (a lookupClient() that bundles answer and error)
 		var lookups []*ssa.Call
-		for _, cl := range eng.Calls(f) {
-			if call, ok := cl.(*ssa.Call); ok && strings.HasPrefix(eng.CalleeName(&call.Call), "ipinfo.GetIPInfoFrom") {
-				lookups = append(lookups, call)
+		for _, g := range regionFns(c, f, nil, 2) {
+			for _, cl := range eng.Calls(g) {
+				if call, ok := cl.(*ssa.Call); ok && strings.HasPrefix(eng.CalleeName(&call.Call), "ipinfo.GetIPInfoFrom") {
+					lookups = append(lookups, call)
+				}
 			}
 		}
 		if len(lookups) == 0 {
 			continue
 		}
 		nWrap++
+		// isAnswer: v is the lookup's own answer — directly, or as the field of a bundle a helper built from it
+		var isAnswer func(v ssa.Value, d int) bool
+		isAnswer = func(v ssa.Value, d int) bool {
+			if d > 8 {
+				return false
+			}
+			v = p.Resolve(v)
+			if inCalls(v, lookups, 0) {
+				return true
+			}
+			var fieldOf func(x ssa.Value, idx, d2 int) bool
+			fieldOf = func(x ssa.Value, idx, d2 int) bool {
+				// x: a struct value or a pointer to one; every construction of it that can arrive here stores an answer
+				// into field idx
+				if d2 > 6 {
+					return false
+				}
+				switch y := x.(type) {
+				case *ssa.UnOp:
+					if y.Op == token.MUL {
+						return fieldOf(y.X, idx, d2+1)
+					}
+				case *ssa.Alloc:
+					okAll, n := true, 0
+					for _, r := range *y.Referrers() {
+						switch rr := r.(type) {
+						case *ssa.Store:
+							if rr.Addr == ssa.Value(y) { // the whole struct is stored
+								n++
+								if !fieldOf(rr.Val, idx, d2+1) {
+									okAll = false
+								}
+							}
+						case *ssa.FieldAddr:
+							if rr.Field != idx {
+								continue
+							}
+							for _, r2 := range *rr.Referrers() {
+								if st, isSt := r2.(*ssa.Store); isSt && st.Addr == ssa.Value(rr) {
+									n++
+									if !isAnswer(st.Val, d+1) {
+										okAll = false
+									}
+								}
+							}
+						}
+					}
+					return okAll && n > 0
+				case *ssa.Call:
+					if h := y.Call.StaticCallee(); h != nil && p.InRepo(h) && len(h.Blocks) > 0 && h.Signature.Results().Len() == 1 {
+						n := 0
+						for _, r := range eng.Returns(h) {
+							n++
+							if !fieldOf(r.Results[0], idx, d2+1) {
+								return false
+							}
+						}
+						return n > 0
+					}
+				case *ssa.Phi:
+					for _, e := range y.Edges {
+						if !fieldOf(e, idx, d2+1) {
+							return false
+						}
+					}
+					return len(y.Edges) > 0
+				}
+				return false
+			}
+			switch x := v.(type) {
+			case *ssa.Field:
+				return fieldOf(x.X, x.Field, 0)
+			case *ssa.UnOp:
+				if fa, ok := x.X.(*ssa.FieldAddr); ok && x.Op == token.MUL {
+					return fieldOf(fa.X, fa.Field, 0)
+				}
+			case *ssa.Phi:
+				for _, e := range x.Edges {
+					if !isAnswer(e, d+1) {
+						return false
+					}
+				}
+				return len(x.Edges) > 0
+			case *ssa.Call:
+				if h := x.Call.StaticCallee(); h != nil && p.InRepo(h) && len(h.Blocks) > 0 && h.Signature.Results().Len() == 1 {
+					n := 0
+					for _, r := range eng.Returns(h) {
+						n++
+						rv := r.Results[0]
+						if sv := p.ReachingStore(rv, r); sv != nil {
+							rv = sv
+						}
+						if !isAnswer(rv, d+1) {
+							return false
+						}
+					}
+					return n > 0
+				}
+			}
+			return false
+		}
 		for i, r := range eng.Returns(f) {
 			if r.Block().Comment == "recover" || ri >= len(r.Results) {
 				continue
 			}
-			okR, bad := p.AllFrom(r.Results[ri], eng.Plain, func(v ssa.Value) bool { return inCalls(v, lookups, 0) })
+			rv := r.Results[ri]
+			if sv := p.ReachingStore(rv, r); sv != nil {
+				rv = sv
+			}
+			okR, bad := p.AllFrom(rv, eng.Plain, func(v ssa.Value) bool { return inCalls(v, lookups, 0) })
+			if !okR {
+				okR = isAnswer(rv, 0)
+			}
 			c.CheckAt("INFOSTATE", fmt.Sprintf("%s:return#%d:hands-on-the-classification-unchanged", short(f), i), r, okR, "a wrapper of the location lookup returns something other than the lookup's own answer (e.g. the zero value on error): the XA / XD labels, which are returned together with an error, are lost and those clients are exported with an empty location ("+valsStr(p, bad)+")")
 		}
 	}
